@@ -67,23 +67,23 @@ Section Codec.
   Proof.
     induction bs as [|b r IH]; intros out H.
     - cbn. rewrite app_nil_r. reflexivity.
-    - inversion H as [|? ? (m & Hm & _ & _) Hr]; subst.
-      cbn [write_from]. unfold writer_write. cbn [w_hdr]. rewrite Hm. cbn [w_hdr w_out].
-      rewrite (IH _ Hr), (msgs_of_cons b r m Hm), frames_cons, <- !app_assoc. reflexivity.
+    - inversion H as [|? ? (m & Hm & Hne & _) Hr]; subst.
+      cbn [write_from]. unfold writer_write. cbn [w_hdr]. rewrite Hm. destruct m as [|m0 m']; [congruence|]. cbn [w_hdr w_out].
+      rewrite (IH _ Hr), (msgs_of_cons b r _ Hm), frames_cons, <- !app_assoc. reflexivity.
   Qed.
 
   Lemma write_all_ok bs : seq_ok bs ->
     write_all penc bs = (file_bytes (ctype_of bs) (msgs_of bs), WOk).
   Proof.
     intros (Hne & Hct & Hlen & Hw). destruct bs as [|b r]; [congruence|].
-    cbn [ctype_of] in *. inversion Hw as [|? ? (m & Hm & _ & _) Hr]; subst.
+    cbn [ctype_of] in *. inversion Hw as [|? ? (m & Hm & Hmne & _) Hr]; subst.
     unfold write_all. cbn [write_from]. unfold writer_write at 1. cbn [w_hdr w_out].
     unfold write_header.
     destruct (N.ltb_spec 65535 (lenN (url_of b))) as [X|_]; [lia|].
     destruct (N.eqb_spec (lenN (url_of b)) 0) as [X|_]; [apply lenN_nil_iff in X; contradiction|].
-    cbn [orb]. rewrite Hm. cbn [w_hdr w_out app].
+    cbn [orb]. rewrite Hm. destruct m as [|m0 m']; [congruence|]. cbn [w_hdr w_out app].
     rewrite (write_from_started r _ Hr). cbn [w_out fst].
-    rewrite (msgs_of_cons b r m Hm). unfold file_bytes. rewrite frames_cons.
+    rewrite (msgs_of_cons b r _ Hm). unfold file_bytes. rewrite frames_cons.
     unfold magic. cbn [app]. rewrite <- !app_assoc. reflexivity.
   Qed.
 
@@ -367,4 +367,39 @@ Proof.
   - vm_compute. lia.
   - exists (1, 0). vm_compute. split; [left; reflexivity|]. split; [|reflexivity].
     intros [H|[]]. discriminate.
+Qed.
+
+
+(* ---- written with the block writer => seq_ok (but for the 4 GiB bound) ---- *)
+
+Lemma write_from_ok_nonempty (penc : blk -> option str) : forall bs st,
+  w_hdr st = true -> snd (write_from penc st bs) = WOk ->
+  Forall (fun b => exists m, penc b = Some m /\ m <> []) bs.
+Proof.
+  induction bs as [|b r IH]; intros st Hh H; [constructor|].
+  cbn [write_from] in H. unfold writer_write in H. rewrite Hh in H.
+  destruct (penc b) as [[|m0 m']|] eqn:Em; cbn [snd] in H; try discriminate.
+  constructor; [exists (m0 :: m'); split; [exact Em | discriminate]|].
+  apply (IH _ Hh H) || (eapply IH; [|exact H]; exact Hh).
+Qed.
+
+Lemma c16_written_is_seq_ok_proof : C16_written_is_seq_ok.
+Proof.
+  intros penc bs Hne H. destruct bs as [|b r]; [congruence|]. cbn [ctype_of].
+  unfold write_all in H. cbn [write_from] in H. unfold writer_write in H. cbn [w_hdr w_out] in H.
+  unfold write_header in H.
+  destruct (N.ltb_spec 65535 (lenN (url_of b))) as [X|X]; cbn [orb] in H; [cbn in H; discriminate|].
+  destruct (N.eqb_spec (lenN (url_of b)) 0) as [Y|Y]; [cbn in H; discriminate|].
+  split; [intro E; apply Y; rewrite E; reflexivity|]. split; [exact X|].
+  destruct (penc b) as [[|m0 m']|] eqn:Em; try (cbn in H; discriminate).
+  constructor; [exists (m0 :: m'); split; [exact Em | discriminate]|].
+  match type of H with snd (let '(st, r0) := write_from penc ?S r in _) = _ =>
+    destruct (write_from penc S r) as [st' r'] eqn:EW; cbn [snd] in H; subst r';
+    apply (write_from_ok_nonempty penc r S eq_refl); rewrite EW; reflexivity end.
+Qed.
+
+Lemma c16_unfixed_writer_accepts_empty_proof : C16_unfixed_writer_accepts_empty.
+Proof.
+  exists (fun _ => Some []), (mkW true [1]), (mkBlk 0 [] [] None 0 0 0 [] 0 0 None).
+  vm_compute. repeat split; reflexivity.
 Qed.
